@@ -112,6 +112,38 @@ example : Interleaving [s1, s2] mix :=
 example : firstEvent (fun b => b) mix = [12, 10, 11] := by decide
 end examples
 
+/-- **1'. the de-duplication window made precise.** The 1500 s timers of `firstEvent` may fire anywhere in
+the run (`expire` items inserted anywhere into an interleaving of the endpoint streams) as long
+as each fires after the last un-removed observation of its identity (`WithinWindow`): the
+handlers still receive each log exactly once. -/
+theorem interleaving_once_window (hash : Bytes → H) (Hs : List (Log P)) (ss : List (List (Item H P)))
+    (m : List (Item H P))
+    (hH : ∀ l ∈ Hs, l.removed = false ∧ 0 < l.blockN)
+    (hd : Hs.Pairwise (fun a b => ident hash false a ≠ ident hash false b))
+    (hstreams : ∀ s ∈ ss, ∀ x ∈ s, StreamItem Hs x)
+    (hcover : ∀ l ∈ Hs, ∃ s ∈ ss, Item.log l ∈ s)
+    (hm : Interleaving ss (stripExpire m))
+    (hw : WithinWindow hash false m) :
+    (firstEvent hash m).Perm (Hs.map (·.payload)) := by
+  have e : firstEvent hash m = firstEvent hash (stripExpire m) := by
+    unfold firstEvent
+    rw [run_eq_map_runL, run_eq_map_runL, runL_strip hash false m [] hw]
+  rw [e]
+  exact interleaving_once hash Hs ss (stripExpire m) hH hd hstreams hcover hm
+
+/-- … and outside the window the same log is delivered again: the window is what bounds "exactly once". -/
+theorem redelivered_after_window (hash : Bytes → H) (l : Log P) (hr : l.removed = false) :
+    firstEvent hash [.log l, .expire (ident hash false l), .log l] = [l.payload, l.payload] := by
+  by_cases hb : l.blockN = 0 <;> simp [firstEvent, run, step, hr, hb, lookup]
+
+example : firstEvent (fun b => b) ([.log la, .log lb, .expire (ident (fun b => b) false la), .log lb, .log lc] : List (Item Bytes Nat)) = [10, 11, 12]
+    ∧ WithinWindow (fun b => b) false ([.log la, .log lb, .expire (ident (fun b => b) false la), .log lb, .log lc] : List (Item Bytes Nat)) := by
+  refine ⟨by decide, ?_⟩
+  simp only [WithinWindow, Unobserved, and_true]
+  intro l hl _
+  simp at hl
+  rcases hl with rfl | rfl <;> decide
+
 /-- **2. removed_never.** Whatever arrives in whatever order (timers included): every delivered payload
 belongs to a log that arrived NOT flagged removed, and the removed-flagged values have no
 influence on the output at all. -/
